@@ -177,6 +177,7 @@ func (e *Env) AddStatic(p *provisioning.Provisioner) {
 	da, _ := e.Parts["deviceallocation"].(*deviceallocation.Controller)
 	vp, _ := e.Parts["virtualpods"].(*virtualpods.Cache)
 	sp := staticprovisioning.NewController(e.C, e.Cluster, e.Rec, e.CP, p, e.S.Clock, da, vp)
+	KeepAlive(sp) // it builds its own Provisioner (change monitor cache)
 	ncHandler := nodepoolutils.NodeClaimEventHandler(nodepoolutils.WithClient(e.C), nodepoolutils.WithStaticOnly)
 	m.Add(&Ctrl{Name: "static.provisioning", UnderTest: true, Reconcile: objRec[*v1.NodePool](e.C, sp),
 		Watches: []Watch{
